@@ -164,43 +164,24 @@ def FloatLit.jsonExact (f : FloatLit) : Bool :=
 /-- the literal keeps its kind through print + re-read. -/
 def FloatLit.stable (f : FloatLit) : Bool := (parseI64 f.text).isNone
 
-/-! #### the same classification from the bit pattern alone (IEEE-754 binary64) -/
+/-- contract of Rust's `{:?}` for an f64 (the printer uses it since the `integral_float_literal` repair):
+    the text shows a decimal point, an exponent, or is `inf`/`NaN` — some character that is neither a
+    digit nor a sign.  Supplied text is checked against this on every request. -/
+def FloatLit.hasPoint (f : FloatLit) : Bool :=
+  f.text.toList.any fun c => !c.isDigit && c != '-' && c != '+'
 
-def f64Exp (b : Nat) : Nat := (b / 4503599627370496) % 2048        -- biased exponent
-def f64Man (b : Nat) : Nat := b % 4503599627370496                  -- 52 fraction bits
-def f64Neg (b : Nat) : Bool := (b / 9223372036854775808) % 2 == 1
-
-/-- number of trailing zero bits of a positive number (fuel-bounded). -/
-def trailingZeros : Nat → Nat → Nat
-  | 0, _ => 0
-  | fuel + 1, n => if n % 2 == 0 && n != 0 then 1 + trailingZeros fuel (n / 2) else 0
-
-/-- the value is a (mathematical) integer: ±0, or a normal number whose fraction bits below the binary
-    point are all zero.  Subnormals other than zero, infinities and NaNs are not. -/
-def f64Integral (b : Nat) : Bool :=
-  let e := f64Exp b
-  let m := f64Man b
-  if e == 2047 then false
-  else if e == 0 then m == 0
-  else if e ≥ 1075 then true
-  else if e < 1023 then false
-  else trailingZeros 53 (4503599627370496 + m) ≥ 1075 - e
-
-/-- |value| < 2⁶³.  (−2⁶³ itself is an i64, but `{}` prints the *shortest* decimal that rounds to the
-    double, `-9223372036854776000`, which is not; below 2⁶³ the printed integer stays in range.) -/
-def f64InI64 (b : Nat) : Bool := f64Exp b < 1086
-
-/-- a float literal keeps its kind iff its value is not an integer representable as i64 — stated on
-    the bits; agreement with the text-based `FloatLit.stable` is what the `c09.lit` requests check
-    against Rust's formatter. -/
-def bitsStable (b : Nat) : Bool := !(f64Integral b && f64InI64 b)
-
-/-- the two characters the scientific-notation guard looks at (`e`/`E` preceded by a digit):
-    an identifier like `V1e` directly before `+`/`-` hides that operator from the splitter. -/
+/-- the scientific-notation guard (`is_exponent_sign`, parser/mod.rs): a `+`/`-` is an exponent sign only
+    after a *numeric* token ending in `e`/`E` — digits and dots from the start of the token.  Among
+    identifiers that is only something like `1e` or `2.5E`. -/
 def sciTail (s : String) : Bool :=
   match s.toList.reverse with
-  | c1 :: c2 :: _ => (c1 == 'e' || c1 == 'E') && c2.isDigit
+  | c1 :: c2 :: rest => (c1 == 'e' || c1 == 'E') && (c2 :: rest).all (fun c => c.isDigit || c == '.')
   | _ => false
+
+def startsWithDigit (s : String) : Bool :=
+  match s.toList with
+  | c :: _ => c.isDigit || c == '.'
+  | [] => false
 
 /-! ### printer -/
 
@@ -345,7 +326,7 @@ def parseA : Nat → Lvl → List Tok → Option AExpr
       match ts with
       | [.int n] => some (.const n)
       | [.fint _ n] => some (.const n)
-      | [.flt x] => some (.flt x)
+      | [.flt x] => if x.finite then some (.flt x) else none   -- non-finite constants are rejected
       | [.ident s] => some (.var s)
       | _ => none
 
@@ -440,7 +421,7 @@ def parseSingle : Tok → Option Term0
   | .str s => some (.str s)
   | .int n => some (.const n)
   | .fint _ n => some (.const n)
-  | .flt f => some (.flt f)
+  | .flt f => if f.finite then some (.flt f) else none
   | _ => none
 
 def vecElem : List Tok → Option FloatLit
@@ -472,19 +453,15 @@ def parseTerm (ts : List Tok) : Option Term :=
     else (parseTerm0 ts).map .base
   | _ => (parseTerm0 ts).map .base
 
-def dropTrailingRp : List Tok → List Tok
-  | [] => []
-  | t :: ts =>
-    match dropTrailingRp ts with
-    | [] => if t == .rp then [] else [t]
-    | r => t :: r
+/-- remove the atom's own closing parenthesis: exactly one trailing `)` (`strip_suffix(')')`). -/
+def dropOneRp (ts : List Tok) : List Tok :=
+  if ts.getLast? == some .rp then ts.dropLast else ts
 
-/-- `parse_atom` (parser/mod.rs:384): name before the first `(`, then **all** trailing `)` are trimmed
-    (`trim_end_matches(')')`) before the arguments are split. -/
+/-- `parse_atom` (parser/mod.rs:384): name before the first `(`, the final `)` removed, arguments split. -/
 def parseAtom (ts : List Tok) : Option Atom :=
   match ts with
   | .ident rel :: .lp :: rest =>
-    let inner := dropTrailingRp rest
+    let inner := dropOneRp rest
     if inner.isEmpty then some ⟨rel, []⟩
     else (optMapM parseTerm (splitTop Depth.stepArgs inner)).map fun as => ⟨rel, as⟩
   | _ => none
@@ -554,12 +531,15 @@ def parseRule (ts : List Tok) : Option Rule :=
 
 /-! ### serialisation for the catalog (`SerializableTerm::from_term` / `to_term`) -/
 
-/-- anything but variables, integers, strings, floats, `_`, aggregates and arithmetic becomes `_`. -/
-def serTerm : Term → Term
-  | .base (.bool _) => .base .wild
-  | .base (.vec _) => .base .wild
-  | .call _ _ => .base .wild
+/-- vector literals (the only term the parser produces that `SerializableTerm` has no variant for)
+    become `_`; everything else is kept. -/
+def serTerm0 : Term0 → Term0
+  | .vec _ => .wild
   | t => t
+
+def serTerm : Term → Term
+  | .base t => .base (serTerm0 t)
+  | .call fn args => .call fn (args.map serTerm0)
 
 def serAtom (a : Atom) : Atom := ⟨a.rel, a.args.map serTerm⟩
 
@@ -664,19 +644,6 @@ def BodyLit.sciHidden : BodyLit → Bool
 
 def Rule.sciHidden (r : Rule) : Bool := r.head.sciHidden || r.body.any BodyLit.sciHidden
 
-/-- the last argument of some atom prints with a closing parenthesis at its end (function call, or
-    arithmetic whose right operand is parenthesised): `parse_atom` trims it away. -/
-def Atom.lastArgEndsParen (a : Atom) : Bool :=
-  match a.args.getLast? with
-  | some t => (printTerm t).getLast? == some .rp
-  | none => false
-
-def BodyLit.atomParen : BodyLit → Bool
-  | .pos a | .neg a => a.lastArgEndsParen
-  | .cmp _ _ _ => false
-
-def Rule.atomParen (r : Rule) : Bool := r.head.lastArgEndsParen || r.body.any BodyLit.atomParen
-
 /-- the catalog serialisation keeps the rule as it is. -/
 def Rule.serStable (r : Rule) : Bool := decide (serRule r = r)
 
@@ -690,11 +657,22 @@ def AExpr.isBin : AExpr → Bool
   | .bin _ _ _ => true
   | _ => false
 
+/-- float literals as the parser produces and the printer renders them: finite, `{:?}` text. -/
+def FloatLit.ok (f : FloatLit) : Bool := f.finite && f.hasPoint
+
+/-- variables of an arithmetic expression do not look like numbers; its float constants are finite. -/
+def AExpr.leavesOk : AExpr → Bool
+  | .var s => !startsWithDigit s
+  | .const _ => true
+  | .flt f => f.ok
+  | .bin _ l r => l.leavesOk && r.leavesOk
+
 /-- variables look like variables, an arithmetic term has an operator at its root, aggregate and
-    function names are the canonical ones. -/
+    function names are the canonical ones, float literals are finite and carry their `{:?}` text. -/
 def Term0.wf : Term0 → Bool
   | .var s => isVarName s && s != "_"
-  | .arith e => e.isBin
+  | .flt f => f.ok
+  | .arith e => e.isBin && e.leavesOk
   | .agg fn _ => simpleAggs.contains fn
   | _ => true
 
